@@ -1392,7 +1392,47 @@ def job_expansions(job):
     return {"id": job["id"], "vectors": out}
 
 
-JOBS = {"expansions": job_expansions, "synth": job_synth, "funcmoment": job_funcmoment, "bayesnet": job_bayesnet, "dists": job_dists, "invariants": job_invariants, "session": job_session, "accepts": job_accepts, "analyze": job_analyze, "linrec": job_linrec, "explattice": job_explattice, "simulate": job_simulate}
+def job_worklist(job):
+    """pop order of RecBuilder.get_recurrences' worklist and the dependency relation of the resulting system"""
+    from inputparser import Parser
+    from program import normalize_program
+    from recurrences import RecBuilder
+    from utils import get_monoms
+    out = []
+    for item in job["items"]:
+        o = {"wid": item["wid"]}
+        signal.alarm(int(item.get("timeout", 100)))
+        try:
+            program = normalize_program(Parser().parse_string(item["text"]))
+            rb = RecBuilder(program)
+            order = []
+            orig = RecBuilder.get_recurrence.__wrapped__
+
+            def logged(self, monomial, _orig=orig):
+                order.append(str(monomial))
+                return _orig(self, monomial)
+            RecBuilder.get_recurrence = logged
+            try:
+                recs = rb.get_recurrences.__wrapped__(rb, symengine.sympify(item["goal"]))
+            finally:
+                from functools import lru_cache
+                RecBuilder.get_recurrence = lru_cache(maxsize=None)(orig)
+            deps = {}
+            for m, rhs in recs.recurrence_dict.items():
+                ms = get_monoms(symengine.sympify(str(rhs)).expand(), constant_symbols=program.symbols)
+                deps[str(symengine.sympify(str(m)))] = sorted({str(mm) for _, mm in ms})
+            o.update(order=order, deps=deps, start=str(symengine.sympify(item["goal"])))
+        except JobTimeout:
+            o["exc"] = "timeout"
+        except Exception as ex:
+            o.update(exc=type(ex).__name__, msg=str(ex)[:200])
+        finally:
+            signal.alarm(0)
+        out.append(o)
+    return {"id": job["id"], "items": out}
+
+
+JOBS = {"worklist": job_worklist, "expansions": job_expansions, "synth": job_synth, "funcmoment": job_funcmoment, "bayesnet": job_bayesnet, "dists": job_dists, "invariants": job_invariants, "session": job_session, "accepts": job_accepts, "analyze": job_analyze, "linrec": job_linrec, "explattice": job_explattice, "simulate": job_simulate}
 
 
 def handle(job):
